@@ -247,7 +247,7 @@ class FQP:
         # for performance reasons
         if isinstance(coeffs[0], int):
             self.coeffs: Tuple[IntOrFQ, ...] = tuple(
-                coeff % self.field_modulus for coeff in coeffs
+                int(coeff) % self.field_modulus for coeff in coeffs
             )
         else:
             self.coeffs = tuple(coeffs)
